@@ -108,7 +108,7 @@ Fixpoint iter_go_st (fuel : nat) (m : mgr) (queue seen out : list re) : status :
     | [] => Finished m out
     | r :: q =>
       match push_all_derivs m r (pclass_ids (rcls r)) q seen with
-      | None => Panicked                 (* a class derivative panicked (u32 overflow of a loop bound) *)
+      | None => Panicked                 (* a class derivative returned None; never happens: iter_never_panics *)
       | Some (m1, q1, s1) => iter_go_st f m1 q1 s1 (out ++ [r])
       end
     end
